@@ -64,7 +64,9 @@ CLAIMED = {
              "place; every IR the real _ast_to_ir can produce is mapped by both backends or is a documented miss that falls back to "
              "the interpreter; at all three call sites an exception while "
              "fetching arguments or running compiled code leads to the interpreter path only. Positional agreement of parameters: "
-             "bounded (IR depth <= 3), labelled. Value level (numpy backend): every template denotes the value of the interpreter's verb "
+             "_collect_params and its recursive closure _walk are proved, for IR trees of any depth, to list the distinct variable names in "
+             "first-occurrence order (structural recursion, decreases on the tree; the enumeration to depth 3 stays as cross-check of the "
+             "specification's renderings); that _ast_to_ir names the variables in that order is read off the code (assumed). Value level (numpy backend): every template denotes the value of the interpreter's verb "
              "for that operator on every admitted operand - the template and the verb's decision list (pre-guards, shortcut with its "
              "guards, generic fold) are read from the real source and compared as terms modulo seven declared NumPy/Python identities; "
              "every call of compiled code is guarded by the admission test (exact int / float, ndarray) on the actual arguments (structural "
@@ -77,7 +79,7 @@ CLAIMED = {
              "and repaired (known_findings.json).",
         ref="DESIGN.md section 4 C05 and section 8",
         technique=TECH + "; CPython ast of the emitted template as the correspondence oracle; term equivalence modulo declared NumPy "
-                         "identities for the value level; bounded unrolling for positional agreement"),
+                         "identities for the value level; modular verification of the recursive closure _walk for positional agreement"),
     'C12': dict(
         text="Termination of the real lexer and recursive-descent parser for every input string: every while loop has an integer variant "
              "(bounded below, strictly decreasing), the mutual recursion decreases the lexicographic measure (len(t)+1-i, rank), progress "
@@ -97,15 +99,18 @@ CLAIMED = {
              "does and wherever it raises; KlongContext as a stack of finite maps (push/pop/innermost lookup/assignment to the first "
              "holder/deletion with whole-stack frames); a conditional evaluates its test once and exactly one branch chosen by Klong "
              "truth (ghost evaluation log); every scope pushed for a function call binds .f to the function being applied. Projection "
-             "flattening: merge_projections == 'fill holes left to right at every step' checked exhaustively on the real function over "
-             "the language's domain incl. array-valued arguments (bounded, labelled). An exception raised inside compiled code ends in the "
+             "flattening: merge_projections (and has_none) proved against the positional specification 'fill the holes left to right at every "
+             "step; a None argument leaves its hole open' for any number of steps and any lengths - loop invariants on both loops, variants, "
+             "two inductive lemmas in Lean (hole count monotone, a filled entry stays) - with the exhaustive enumeration over the language's "
+             "domain kept as a bounded cross-check of the specification's renderings (labelled). An exception raised inside compiled code ends in the "
              "interpreter path (C05's contract of eval re-verified here): the call form agrees with the substituted body where compiled "
              "code fails.",
         note="Assumed: verb functions, Python callables and compiled expressions are stack-preserving; the documented .module exception "
              "(ghost flag); module-scope lookup rules not under contract; the positional construction of the call frame in _eval_fn is "
              "not yet under contract; substitution semantics of whole bodies is a whole-evaluator statement and not decided.",
         ref="DESIGN.md section 4 C03, Appendix A.4",
-        technique=TECH + "; merge_projections: exhaustive enumeration over the language's finite domain (bounded stand-in)"),
+        technique=TECH + "; merge_projections: loop invariants over positional spec functions with Lean 4 lemmas for the two inductions "
+                         "(an exhaustive enumeration over the language's finite domain is kept as bounded cross-check)"),
     'C09': dict(
         text="klong[k]=v / klong[k] / del klong[k] through the context-assignment contract (wrap on both paths; compiled cache cleared unless every call of compiled code is guarded, "
              "functions read back as KGFnWrapper bound to the name); KGLambda collects the first n reserved symbols (positional) and "
@@ -148,8 +153,9 @@ CLAIMED = {
              "read_string(t,i) = dec(t,i) against positional spec functions; Lean proves dec(enc s ++ '\"' ++ tail) = (s, |enc s|+1) "
              "under the follow condition; characters (0cX), symbols (:name) and the dispatch order of kg_write over the class lattice. "
              "read_list returns exactly the sequence of lexeme values between the brackets, in order (whole-view loop invariant: no "
-             "member is re-interpreted). Numbers, dictionaries, whole lists end-to-end, Form/Format and the round trip through a file "
-             "(.w then .r): bounded stand-in per value kind only (labelled, not counted as proved).",
+             "member is re-interpreted). eval_sys_read (.r): the channel is left exactly behind the object that was returned (channel model: "
+             "text and position; successive .r calls read successive objects). Numbers, dictionaries, whole lists end-to-end, Form/Format "
+             "and the round trip through a file (.w then .r): bounded stand-in per value kind only (labelled, not counted as proved).",
         note="Assumed: hand pairing of the SMT / Python / Lean renderings of the spec functions (narrowed by a bounded cross-check each "
              "run); float/int repr round trips. Known finding: a written dictionary reads back as an unevaluated call object.",
         ref="DESIGN.md section 4 C11",
